@@ -281,14 +281,24 @@ def _send_buffer(ctx, R, roles, T):
     # cursor idiom
     sl = tgt.slice
     buf_len = ("LEN", rec)
-    idx = ("attr", ("p", info), "send_idx")
+    idx = T.term(f, sn, ast.Attribute(value=ast.Name(id=info, ctx=ast.Load()), attr="send_idx", ctx=ast.Load()))     # the cursor as it is when the record is stored
+    from ..terms import linear, lin_sub
     okc = isinstance(sl, ast.Slice) and sl.step is None and sl.lower is not None and sl.upper is not None
     if okc:
         lo, hi = T.term(f, sn, sl.lower), T.term(f, sn, sl.upper)
-        okc = lo == idx and hi in (("op", "+", idx, buf_len), ("op", "+", buf_len, idx)) or (lo == idx and _flatten_sum(hi) and sorted(_flatten_sum(hi), key=repr) == sorted([idx, buf_len], key=repr))
+        okc = linear(lo) == linear(idx) and lin_sub(hi, lo) == linear(buf_len)
     R.check(okc, "BUF-send", q + "|cursor-store", "record stored at buffer[idx : idx + len(record)]", "the record is stored at `%s`, not at [send_idx : send_idx + len(record)]" % src(tgt), f.loc(sn.ast))
-    adv = [n for n in g.live_nodes() if n.kind == "stmt" and isinstance(n.ast, ast.AugAssign) and varkey(n.ast.target) == info + ".send_idx"]
-    oka = len(adv) == 1 and isinstance(adv[0].ast.op, ast.Add) and T.term(f, adv[0], adv[0].ast.value) == buf_len and g.dominates([sn], adv[0]) and g.dominates([adv[0]], g.exit, exc=False)
+    # the cursor is moved by exactly len(record), once, after the store, on every path (`idx += len(record)` or `idx = <end of the slice>`)
+    adv = [n for n in g.live_nodes() if n.kind == "stmt" and any(d.var == info + ".send_idx" and d.kind in ("aug", "assign") for d in df.node_defs.get(n, []))]
+    oka = len(adv) == 1 and g.dominates([sn], adv[0]) and g.dominates([adv[0]], g.exit, exc=False) and not adv[0].loops
+    if oka:
+        a = adv[0].ast
+        if isinstance(a, ast.AugAssign) and isinstance(a.op, ast.Add):
+            oka = linear(T.term(f, adv[0], a.value)) == linear(buf_len)
+        elif isinstance(a, ast.Assign) and len(a.targets) == 1:
+            oka = lin_sub(T.term(f, adv[0], a.value), idx) == linear(buf_len) and T.term(f, adv[0], ast.Attribute(value=ast.Name(id=info, ctx=ast.Load()), attr="send_idx", ctx=ast.Load())) == idx
+        else:
+            oka = False
     R.check(oka, "BUF-send", q + "|cursor-advance", "cursor advanced by len(record) after the store, on every path", "the send cursor is not advanced by exactly len(record) after the store", f.loc(sn.ast))
     # room-or-flush dominates the store
     flushes = [n for n, _c in callee_nodes(ctx, f, fl)]
